@@ -35,6 +35,18 @@ pub struct TapInner {
     pub all: Vec<(Side, Bytes)>,
     /// datagrams swallowed by a hold rule (released by the harness)
     pub stash: Vec<(Side, Bytes)>,
+    /// well-formed STUN messages seen on a proxy socket (stray traffic of other processes)
+    pub foreign: u64,
+}
+
+/// RFC 5389 framing: two zero top bits, magic cookie, length field == remaining bytes (multiple of 4).
+pub fn is_stun(b: &[u8]) -> bool {
+    b.len() >= 20
+        && b[0] < 0x40
+        && !(20..64).contains(&b[0])
+        && b[4..8] == [0x21, 0x12, 0xA4, 0x42]
+        && u16::from_be_bytes([b[2], b[3]]) as usize == b.len() - 20
+        && b.len() % 4 == 0
 }
 
 pub type Tap = Arc<Mutex<TapInner>>;
@@ -77,6 +89,12 @@ pub fn install_tap(pair: &Pair) -> Tap {
     let f: CustomFn = Arc::new(move |k: u8, b: &Bytes| {
         let side = if k & 1 == 0 { Side::A } else { Side::B };
         let mut g = t.lock();
+        if is_stun(b) {
+            // not emitted by the endpoint under test: other processes on this host probe loopback
+            // ports with ICE connectivity checks, and the proxy socket cannot tell the sender
+            g.foreign += 1;
+            return vec![b.clone()];
+        }
         g.all.push((side, b.clone()));
         if k >= 2 {
             g.stash.push((side, b.clone()));
